@@ -16,17 +16,35 @@ TOKEN_BY_TOKEN = {
     "MultiSetCooccurrenceVectorizer", "LabelledTreeCooccurrenceVectorizer",
 }
 LOT = "vectorizers/linear_optimal_transport.py"
-# kernel row loops: (file, function, loop target) - re-validated on every run (missing => analysis error)
+# kernel row loops: (file, function, nesting depth analysed) - every top-level loop of the function is a row (or chunk)
+# loop; depth 2 also analyses the loops nested directly inside them (chunk -> row).  Selected by structure, not by names;
+# re-validated on every run (a function without loops => analysis error).
 KERNEL_ROW_LOOPS = [
-    ("vectorizers/skip_gram_vectorizer.py", "skip_grams_matrix_coo_data", "row_idx"),
-    ("vectorizers/mixed_gram_vectorizer.py", "bpe_encode_all", "i"),
-    (LOT, "lot_vectors_sparse_internal", "n"),
-    (LOT, "lot_vectors_sparse_internal", "i"),
-    (LOT, "lot_vectors_dense_internal", "n"),
-    (LOT, "lot_vectors_dense_internal", "i"),
-    (LOT, "sinkhorn_vectors_sparse_internal", "batch"),
-    ("vectorizers/transformers/row_desnoise.py", "numba_multinomial_em_sparse", "i"),
+    ("vectorizers/skip_gram_vectorizer.py", "skip_grams_matrix_coo_data", 1),
+    ("vectorizers/mixed_gram_vectorizer.py", "bpe_encode_all", 1),
+    (LOT, "lot_vectors_sparse_internal", 2),
+    (LOT, "lot_vectors_dense_internal", 2),
+    (LOT, "sinkhorn_vectors_sparse_internal", 1),
+    ("vectorizers/transformers/row_desnoise.py", "numba_multinomial_em_sparse", 1),
 ]
+
+
+def _kernel_loops(f: Func, depth: int) -> List[ast.For]:
+    def top(stmts):
+        out = []
+        for s_ in stmts:
+            if isinstance(s_, ast.For):
+                out.append(s_)
+            elif isinstance(s_, (ast.If, ast.With, ast.Try)):
+                for fld in ("body", "orelse", "finalbody"):
+                    out += top(getattr(s_, fld, []) or [])
+        return out
+
+    loops = top(f.node.body)
+    if depth >= 2:
+        for lp in list(loops):
+            loops += top(lp.body)
+    return loops
 
 
 def row_wise_estimators(repo: Repo) -> List[Cls]:
@@ -75,19 +93,19 @@ def r12_1(repo: Repo) -> RuleResult:
             rets = [n for n in walk_no_nested(tr.node) if isinstance(n, ast.Return)]
             rr.ok(tr, "no row loop", "transform is a whole-matrix expression (linear map / delegated): row-wise by construction or covered through its helper",
                   tr.node.lineno, nontrivial=False)
-    for file, fn, tgt in KERNEL_ROW_LOOPS:
+    for file, fn, depth in KERNEL_ROW_LOOPS:
         f = repo.func(file, fn)
-        loops = [n for n in walk_no_nested(f.node) if isinstance(n, ast.For) and norm(n.target) == tgt]
+        loops = _kernel_loops(f, depth)
         if not loops:
-            raise AnalysisError("R12.1: row loop `for %s in ...` not found in %s::%s (table entry must be re-confirmed)" % (tgt, file, fn))
-        lp = loops[0]
-        construct = "loop `for %s in %s`" % (tgt, short(lp.iter, 40))
-        ch, allowed = carried_channels(repo, eff, f, lp, None)
-        if ch:
-            for name, why, line in ch:
-                rr.bad(f, construct + " / " + name, why, line)
-        else:
-            rr.ok(f, construct, "no cross-row channel; allowed output channels: %s" % (allowed or "none"), lp.lineno)
+            raise AnalysisError("R12.1: no row loop found in %s::%s (table entry must be re-confirmed)" % (file, fn))
+        for k, lp in enumerate(loops):
+            construct = "loop#%d `for %s in %s`" % (k, norm(lp.target), short(lp.iter, 40))
+            ch, allowed = carried_channels(repo, eff, f, lp, None)
+            if ch:
+                for name, why, line in ch:
+                    rr.bad(f, construct + " / " + name, why, line)
+            else:
+                rr.ok(f, construct, "no cross-row channel; allowed output channels: %s" % (allowed or "none"), lp.lineno)
     return rr
 
 
